@@ -381,14 +381,21 @@ def evidence(pid, tier, seed, results, scan_results, kani_results, violations, k
         failed_ids = {f["id"] for f in r.get("failures", [])}
         failed_fns = {f.get("fn") for f in r.get("failures", [])}
         n = len(obs)
-        obligations += n
-        if r["status"] == "ok":
+        known_ids = {f["id"] for (u, f, k) in known_hits if u == r["unit"]}
+        if r["status"] == "failed" and failed_ids and failed_ids <= known_ids:
+            # every refuted obligation of this unit is a LISTED known finding: those clauses are not claimed (they are reported under
+            # coverage.known_findings), and Verus reports each refuted clause of a function separately (--multiple-errors), so the
+            # function's other clauses were discharged
+            n = sum(1 for o in obs if o["id"] not in failed_ids)
+            d = n
+        elif r["status"] == "ok":
             d = n
         elif r["status"] == "failed":
             # obligations of functions with any failure are not counted as discharged
             d = sum(1 for o in obs if o["fn"] not in failed_fns and o["id"] not in failed_ids)
         else:
             d = 0
+        obligations += n
         discharged += d
         for o in obs[:3]:
             samples.append(dict(unit=r["unit"], obligation=o["id"], clause=o["text"][:300]))
@@ -434,7 +441,8 @@ def evidence(pid, tier, seed, results, scan_results, kani_results, violations, k
         explanation=("explicit obligations = ensures/invariant/decreases clauses and assert statements enumerated from the woven "
                      "Verus files of this run (trusted declarations excluded); Verus additionally checks implicit safety obligations "
                      "(overflow, index bounds, callee preconditions, termination) which are verified but not enumerated here"),
-        known_findings=[dict(unit=u, obligation=f["id"], what=k["what"]) for (u, f, k) in known_hits],
+        known_findings=[dict(unit=u, obligation=f["id"], what=k["what"], note="refuted on this run; listed in known_findings.txt; not counted among the obligations claimed")
+                        for (u, f, k) in known_hits],
         undecided=undecided,
     )
     if obligations == 0:
